@@ -208,7 +208,7 @@ def _body(resp):
     return int(node.get('MdibVersion')), re.sub(rb' DateAndTime="[0-9]*"', b'', etree.tostring(node))
 
 
-def _violation(sched, templates, order, reader='R'):
+def _violation(sched, templates, order, reader='R', version_reads=None):
     """Reader observes writer w partially: a reader read r1 sees a conflicting write w1 of that writer done, while a reader
     read r2 does not (yet) see a conflicting write w2 of the same writer. Conflicts: mdib_version read/write; access to table T
     vs. mutation of table T."""
@@ -220,6 +220,8 @@ def _violation(sched, templates, order, reader='R'):
             return w if k == 'tw' else ('mdib_version' if (k, w) == ('write', 'mdib_version') else None)
         return w if k in ('tr', 'tw') else ('mdib_version' if (k, w) == ('read', 'mdib_version') else None)
     r_ev = [(i, var(ev, False)) for i, ev in enumerate(rt) if var(ev, False)]
+    if version_reads is not None:       # only these reads of mdib_version end up in the result (taint analysis of the recording)
+        r_ev = [(i, v) for i, v in r_ev if v != 'mdib_version' or i in version_reads]
     clauses = []
     for lab, tpl in templates.items():
         if lab == reader:
